@@ -80,7 +80,7 @@ fn cfgs(quick: bool) -> Vec<(Cfg, usize)> {
     // 1. one block of width 2: every answer order x every success/timeout assignment (4!·2^4)
     v.push((cfg("w2-exhaustive", &[2], (1, 1), 1, 0, 8, Menu::answers_only()), 8));
     // 2. two blocks of width 2 sampled concurrently, every outstanding request answerable
-    v.push((cfg("w2x2-concurrent", &[2, 2], (1, 2), 2, 0, 12, Menu::answers_only()), if quick { 3 } else { 6 }));
+    v.push((cfg("w2x2-concurrent", &[2, 2], (1, 2), 2, 0, 12, Menu::answers_only()), if quick { 3 } else { 5 }));
     // 3. one block of width 4 (16 samples = the whole square)
     v.push((cfg("w4-single", &[4], (1, 1), 1, 0, 20, answers_reps.clone()), if quick { 3 } else { 4 }));
     v.push((cfg("w4-single-all-positions", &[4], (1, 1), 1, 0, 20, Menu::answers_only()), 2));
@@ -101,6 +101,7 @@ fn cfgs(quick: bool) -> Vec<(Cfg, usize)> {
 
 fn main() {
     let ctx = Ctx::from_args("C33");
+    start_watchdog(&ctx.id);
     let mut rep = Report::new();
     let stats: Stats = Mutex::new(Default::default());
     if let Some(case) = ctx.replay_case() {
@@ -147,7 +148,7 @@ fn main() {
         &ctx,
         rep,
         Spec {
-            rule: "E1: random_indexes(w,16) for w in 1..=64 ∪ {65,127,128,255,256,512,1024,4096,65535}, 8 calls each. E3: real Daser over InMemoryStore+mocked P2p, executions = sequences of environment events (answer outstanding sample request k with a valid sample / RequestTimedOut, insert next head, WantToPrune/remove, disconnect/reconnect, advance clock 61 s / 5 h), choice 0 = answer oldest request successfully; cfg w2-exhaustive: all 4!·2^4 answer orders x success/timeout assignments of one width-2 block; w2x2-concurrent: two width-2 blocks in flight, <=3 (quick) / 6 (thorough) deviations over all outstanding positions; w4-single: 16 samples, <=3 / 4 deviations over oldest/newest position, and <=2 over all positions; wide-8-16-32-64: heads of width 8,16,32,64 arriving, <=2; w2x3-concurrent: three width-2 blocks in flight, <=2 / 3; w4+w2-concurrent: <=2 / 3; growing-pruned: 4 blocks, limit 2+1, heads arriving, WantToPrune/remove of heights 1,2, disconnect/reconnect, clock, <=2; growing-pruned-small: 3 blocks, <=2 / 3; thorough adds growing-pruned over all positions (<=2) and growing-pruned-deep (<=3, WantToPrune of height 2 only). An execution is non-trivial when it deviates from the all-success default; distinct = distinct choice sequences (states = distinct property-level observation traces)",
+            rule: "E1: random_indexes(w,16) for w in 1..=64 ∪ {65,127,128,255,256,512,1024,4096,65535}, 8 calls each. E3: real Daser over InMemoryStore+mocked P2p, executions = sequences of environment events (answer outstanding sample request k with a valid sample / RequestTimedOut, insert next head, WantToPrune/remove, disconnect/reconnect, advance clock 61 s / 5 h), choice 0 = answer oldest request successfully; cfg w2-exhaustive: all 4!·2^4 answer orders x success/timeout assignments of one width-2 block; w2x2-concurrent: two width-2 blocks in flight, <=3 (quick) / 5 (thorough) deviations over all outstanding positions; w4-single: 16 samples, <=3 / 4 deviations over oldest/newest position, and <=2 over all positions; wide-8-16-32-64: heads of width 8,16,32,64 arriving, <=2; w2x3-concurrent: three width-2 blocks in flight, <=2 / 3; w4+w2-concurrent: <=2 / 3; growing-pruned: 4 blocks, limit 2+1, heads arriving, WantToPrune/remove of heights 1,2, disconnect/reconnect, clock, <=2; growing-pruned-small: 3 blocks, <=2 / 3; thorough adds growing-pruned over all positions (<=2) and growing-pruned-deep (<=3, WantToPrune of height 2 only). An execution is non-trivial when it deviates from the all-success default; distinct = distinct choice sequences (states = distinct property-level observation traces)",
             assumptions: &[
                 "wall clock Time::now() is not seamed: header times are 1 h (inside) / 6 h (outside) old against a 4 h sampling window",
                 "the mocked P2p stands for bitswap: an answer is either a sample that decodes and verifies against the header's DAH (checked when the fixture builds it) or RequestTimedOut; undecodable data never reaches the Daser (ShwapMultihasher rejects it earlier)",
